@@ -1512,7 +1512,7 @@ def cache_scenarios(ctx):
             for first_fail in ('client_error', 'false', 'timeout'):
                 out.append((['estimatefee'], [q('estimatefee', blocks=blocks)] + mid(dt, False, dt == 599) +
                             [q('estimatefee', blocks=blocks)], True,
-                            {'estimatefee': [[first_fail, 'ok'], [first_fail, 'ok']]}))
+                            {'estimatefee': [[first_fail, 'ok'], [first_fail, 'ok']]}, 1))
     for n, item in enumerate(out):
         if n % ctx.nshards != ctx.shard:
             continue
@@ -1525,7 +1525,7 @@ def cache_scenarios(ctx):
         elif n % 3 == 0:
             beh = {m: [['client_error', 'ok'], ['ok']] for m in methods}
         yield n, {'kind': 'plan', 'net': NETS[n % 3], 'k': 2, 'prio': [2, 1] if n % 2 else [1, 1], 'minp': 1,
-                  'maxp': 1 + (n % 5 == 0), 'max_errors': 4, 'cache': cache, 'rseed': n, 'salt': n % 5, 'beh': beh,
+                  'maxp': 1 + (n % 5 == 0), 'max_errors': item[4] if len(item) > 4 else 4, 'cache': cache, 'rseed': n, 'salt': n % 5, 'beh': beh,
                   'ops': ops}
 
 
